@@ -104,8 +104,8 @@ type point struct {
 	SizeVFS   int64    `json:"size_vfs"`
 	SizeRef   int64    `json:"size_ref"`
 	BadPages  []uint32 `json:"bad_pages,omitempty"`  // bytes differ
-	ErrPages  []uint32 `json:"err_pages,omitempty"`  // ReadAt failed
-	GonePages []uint32 `json:"gone_pages,omitempty"` // ReadAt failed with BUSY and the file the index entry names is not on the replica
+	ErrPages  []uint32 `json:"err_pages,omitempty"`  // ReadAt failed although the entry's file exists (or there is no entry)
+	GonePages []uint32 `json:"gone_pages,omitempty"` // the index entry names a file that is not on the replica any more; a cold read fails with BUSY
 	Missing   []uint32 `json:"missing_pages,omitempty"` // pages of the restored database without an index entry (a cached page can hide this from ReadAt)
 	PrevOK    bool     `json:"prev_ok"`              // previous point of this instance was clean
 	BytesOK   bool     `json:"bytes_ok"`
@@ -390,40 +390,69 @@ func (h *hist) check(kind string, modelLine int, ts time.Time) (ok bool) {
 	}
 	p.RefSource = src
 	p.SizeRef = int64(len(ref))
-	buf := make([]byte, h.ps)
-	busy := 0
-	for pg := 1; pg*h.ps <= len(ref); pg++ {
-		if uint32(pg) == ltx.LockPgno(uint32(h.ps)) {
-			continue
+	// pages whose index entry names a file that is no longer on the replica (retention)
+	gone := map[uint32]bool{}
+	statCache := map[string]bool{}
+	for _, ie := range st.Index {
+		path := h.client.LTXFilePath(ie.Level, ie.MinTXID, ie.MaxTXID)
+		missing, ok := statCache[path]
+		if !ok {
+			_, err := os.Stat(path)
+			missing = os.IsNotExist(err)
+			statCache[path] = missing
 		}
-		want := ref[(pg-1)*h.ps : pg*h.ps]
-		n, err := h.vf.ReadAt(buf, int64(pg-1)*int64(h.ps))
-		if err != nil || n != h.ps {
-			p.ErrPages = append(p.ErrPages, uint32(pg))
-			if errors.Is(err, sqlite3vfs.BusyError) && h.entryFileGone(st, uint32(pg)) {
-				p.GonePages = append(p.GonePages, uint32(pg))
-				// the file behind the index entry is gone (retention); every such read costs
-				// the VFS's full retry schedule, so stop after two
-				if busy++; busy >= 2 {
-					p.Note = "stopped reading after two reads failed with BUSY (file deleted under the index)"
-					break
-				}
-			}
-			continue
-		}
-		got := append([]byte(nil), buf...)
-		if pg == 1 {
-			// vfs.go ReadAt: p[18], p[19] = 1, 1 (journal mode) and p[24:28] random (change counter)
-			w := append([]byte(nil), want...)
-			for _, i := range []int{18, 19, 24, 25, 26, 27} {
-				got[i], w[i] = 0, 0
-			}
-			want = w
-		}
-		if !bytes.Equal(got, want) {
-			p.BadPages = append(p.BadPages, uint32(pg))
+		if missing && int(ie.Pgno)*h.ps <= len(ref) {
+			gone[ie.Pgno] = true
 		}
 	}
+	buf := make([]byte, h.ps)
+	badSet, errSet := map[uint32]bool{}, map[uint32]bool{}
+	// two passes over EVERY page: with the cache as the history left it (stale cached pages show
+	// here), then with a cold cache (every read goes through the index to the replica). A read
+	// through an entry whose file is gone costs the VFS's whole retry schedule (225 ms) and can only
+	// fail, so it is attempted once per check point, on the cold pass.
+	confirmed := false
+	for pass := 0; pass < 2; pass++ {
+		if pass == 1 {
+			h.vf.PurgePageCache()
+		}
+		for pg := 1; pg*h.ps <= len(ref); pg++ {
+			if uint32(pg) == ltx.LockPgno(uint32(h.ps)) {
+				continue
+			}
+			if gone[uint32(pg)] {
+				if pass == 0 || confirmed {
+					continue
+				}
+				confirmed = true
+				if n, err := h.vf.ReadAt(buf, int64(pg-1)*int64(h.ps)); err == nil && n == h.ps {
+					delete(gone, uint32(pg)) // served after all
+				} else {
+					p.Note = fmt.Sprintf("cold read of page %d through an entry whose file is gone: %v", pg, err)
+					continue
+				}
+			}
+			want := ref[(pg-1)*h.ps : pg*h.ps]
+			n, err := h.vf.ReadAt(buf, int64(pg-1)*int64(h.ps))
+			if err != nil || n != h.ps {
+				errSet[uint32(pg)] = true
+				continue
+			}
+			got := append([]byte(nil), buf...)
+			if pg == 1 {
+				// vfs.go ReadAt: p[18], p[19] = 1, 1 (journal mode) and p[24:28] random (change counter)
+				w := append([]byte(nil), want...)
+				for _, i := range []int{18, 19, 24, 25, 26, 27} {
+					got[i], w[i] = 0, 0
+				}
+				want = w
+			}
+			if !bytes.Equal(got, want) {
+				badSet[uint32(pg)] = true
+			}
+		}
+	}
+	p.BadPages, p.ErrPages, p.GonePages = sortedSet(badSet), sortedSet(errSet), sortedSet(gone)
 	have := map[uint32]bool{}
 	for _, ie := range st.Index {
 		have[ie.Pgno] = true
@@ -433,7 +462,7 @@ func (h *hist) check(kind string, modelLine int, ts time.Time) (ok bool) {
 			p.Missing = append(p.Missing, uint32(pg))
 		}
 	}
-	p.BytesOK = len(p.BadPages) == 0 && len(p.ErrPages) == 0 && p.SizeVFS == p.SizeRef
+	p.BytesOK = len(p.BadPages) == 0 && len(p.ErrPages) == 0 && len(p.GonePages) == 0 && p.SizeVFS == p.SizeRef
 	// the spec oracle on the index (reference: the L0 ledger)
 	if uint64(st.Pos) <= uint64(len(h.ledger)) {
 		lr := h.ledgerRef()
@@ -450,15 +479,16 @@ func (h *hist) check(kind string, modelLine int, ts time.Time) (ok bool) {
 	return h.prevOK
 }
 
-// entryFileGone reports whether the file the index entry of pgno names is missing on the replica.
-func (h *hist) entryFileGone(st litestream.VFSIndexState, pgno uint32) bool {
-	for _, e := range st.Index {
-		if e.Pgno == pgno {
-			_, err := os.Stat(h.client.LTXFilePath(e.Level, e.MinTXID, e.MaxTXID))
-			return os.IsNotExist(err)
-		}
+func sortedSet(m map[uint32]bool) []uint32 {
+	out := make([]uint32, 0, len(m))
+	for k := range m {
+		out = append(out, k)
 	}
-	return false
+	sort.Slice(out, func(i, j int) bool { return out[i] < out[j] })
+	if len(out) == 0 {
+		return nil
+	}
+	return out
 }
 
 func (h *hist) closeVFS() {
@@ -770,6 +800,8 @@ var directed = []struct {
 	{"l1-two-files-growth", 1024, "I 20 300;S;C1;OPEN;U 0 2;S;C1;I 20 300;S;C1;POLL;U 0 3;S;POLL"},
 	{"compaction-retention", 1024, "I 20 300;S;OPEN;I 5 300;S;I 5 300;S;C1;R0;POLL;I 5 300;S;C1;C2;R0;SN;RS;POLL;OPEN"},
 	{"lag-behind-retention", 1024, "I 20 300;S;OPEN;I 5 300;S;I 5 300;S;I 5 300;S;C1;R0;I 5 300;S;POLL;POLL"},
+	{"l1-catches-up-then-l0-retention", 1024, "I 20 300;S;C1;OPEN;U 0 2;S;U 1 2;S;POLL;C1;R0;POLL;U 0 3;S;POLL"},
+	{"l1-catches-up-maxtxid1-seeded-from-pos", 1024, "I 20 300;S;OPEN;U 0 2;S;U 1 2;S;POLL;C1;R0;POLL;U 0 3;S;POLL"},
 	{"locked-polls", 1024, "I 30 300;S;OPEN;I 30 300;S;LPOLL;D 0 2;S;VAC;S;LPOLL;I 3 30;S;LPOLL"},
 	{"time-travel", 1024, "I 20 300;S;I 20 300;S;OPEN;D 0 2;S;V 2;S;I 4 40;S;POLL;TT 0;TT 1;TT 2;TT 3"},
 }
